@@ -43,6 +43,11 @@ func NewEncoder(w *bufio.Writer, side ConnSide) *Encoder {
 	return &Encoder{w: w, side: side}
 }
 
+// Err returns the first error encountered by the encoder, if any.
+func (enc *Encoder) Err() error {
+	return enc.err
+}
+
 func (enc *Encoder) setErr(err error) {
 	if enc.err == nil {
 		enc.err = err
@@ -129,6 +134,11 @@ func (enc *Encoder) validQuoted(s string) bool {
 }
 
 func (enc *Encoder) stringLiteral(s string) {
+	if enc.err != nil {
+		// Don't register a continuation request nobody will wait for
+		return
+	}
+
 	var sync *ContinuationRequest
 	if enc.side == ConnSideClient && (!enc.LiteralMinus || len(s) > 4096) && !enc.LiteralPlus {
 		if enc.NewContinuationRequest != nil {
